@@ -21,12 +21,12 @@ HOWS_ANY = ["new", "new_raw", "new_root", "alloc", "alloc_raw", "alloc_root", "s
 TYPES = ["Int", "Float", "String", "Tuple", "Array", "Probe"]
 ELEM_HOWS = ["aelem", "f_aelem", "lelem", "tkey", "tval", "rkey", "rval", "it_array", "it_list", "it_table", "it_tree",
              "c_tkey", "c_tval", "c_rkey", "c_rval", "a_tkey", "a_tval", "a_rkey", "a_rval"]      # copies / assignees, key and value sizes far apart
-OTHER = [("copy", "Int"), ("copy", "String"), ("copy", "Float"), ("static", "Int"), ("static", "String"), ("uitem", "Int"),
+OTHER = [("staticobj", "String"), ("copy", "Int"), ("copy", "String"), ("copy", "Float"), ("static", "Int"), ("static", "String"), ("uitem", "Int"),
          ("it_range", "Int"), ("it_slice", "Int"), ("it_zip", "Int"), ("it_map", "Int"), ("rtinst", "Int")]
 RELEASE = ["del_raw", "dealloc", "dealloc_raw", "dealloc_root"]
 MANAGED = ["del", "del_root"]
-INPLACE_S = ["resize", "assign", "assignin", "concat", "append", "printto", "lookfrom", "lookempty", "scanshow"]
-INPLACE_T = ["push", "pop", "popat", "resize", "concat", "assign"]
+INPLACE_S = ["resize", "assign", "assignin", "concat", "concatself", "append", "printto", "lookfrom", "lookempty", "scanshow"]
+INPLACE_T = ["push", "pop", "popat", "resize", "concat", "concatself", "assign"]
 KNOWN_SILENT = "F-C19-del-nonheap"
 
 
@@ -75,7 +75,7 @@ def cases(rng, quick):
     for ops in ops_for("stack", "Half", "stack", False):           # a stack object of the type with half an Alloc instance
         out.append(["reset", "case stack Half %s" % " ".join(ops)])
     for how, ty in OTHER:
-        cls = {"copy": "heap", "static": "static", "uitem": "heap", "it_range": "stack", "it_zip": "stack", "rtinst": "heap"}.get(how, "data")
+        cls = {"copy": "heap", "static": "static", "staticobj": "static", "uitem": "heap", "it_range": "stack", "it_zip": "stack", "rtinst": "heap"}.get(how, "data")
         reg = how in ("copy", "uitem", "rtinst")
         t2 = "Tuple" if how == "it_zip" else ty
         for ops in ops_for(how, t2, cls, reg):
